@@ -408,6 +408,22 @@ impl Store {
                 owns_dir: false,
             }),
             Backend::Sqlite => {
+                // swarm knob (one run in three): before this run's storage exists, the same thread opens,
+                // uses and drops a storage on ANOTHER directory. Legal for a library; anything the
+                // backend parks per thread, per process or per object address (connections, caches) is
+                // then primed with the other directory's.
+                if crate::rng::mix(&[ID_SEED.load(Ordering::SeqCst), 0xDEC0]) % 3 == 0 {
+                    let d = fresh_dir("decoy");
+                    if let Ok(s) = SqliteStorage::new(&d) {
+                        let a: Arc<dyn Storage> = Arc::new(s);
+                        if let Ok(mut t) = a.txn(Uuid::from_u128(0xDEC0)) {
+                            let _ = t.get_client();
+                            let _ = t.new_client(Uuid::nil());
+                            let _ = t.commit();
+                        }
+                        drop(a);
+                    }
+                }
                 let dir = fresh_dir("db");
                 if let Some(ps) = page_size {
                     precreate_db(&dir, ps)?;
